@@ -71,6 +71,8 @@ def check(ctx):
     q = A.names(prog)["queue_type"]
     removes = [b for b in lib.call_blocks(R, lambda n: lib.tail(n, 2) == A.names(prog)["queue_detach"]) if any(R.dominates(r, b) for r in runs)]
     retains = [b for b, t, fr in R.iter_calls() if fr and mir.strip_generics(mir.fn_name(fr)).endswith(("VecDeque::retain", "VecDeque::retain_mut"))]
+    # loop form of the replay (position scan, validated by C02.c): the replay sites are the runner's calls of itself
+    retains += [b for b, t, fr in R.iter_calls() if fr and mir.fn_name(fr) == R.path]
     ok = bool(removes) and bool(inserts) and bool(retains)
     if ok:
         for ib in inserts:
